@@ -649,9 +649,10 @@ def r_date_variant(ctx, rep):
     n = 0
     for fn in F.fns_in("src/datatype.rs"):
         short = fn.name.rsplit("::", 1)[-1]
-        if short not in ("as_datetime", "as_date", "as_time", "as_duration") or "ExcelDateTime" in fn.name:
+        if short not in ("as_datetime", "as_date", "as_time", "as_duration", "is_datetime", "is_duration_iso", "is_datetime_iso", "get_datetime") or "ExcelDateTime" in fn.name:
             continue
-        n += 1
+        if short in ("as_datetime", "as_date", "as_time", "as_duration"):
+            n += 1
         key = "%s|R-DATE-VARIANT" % fn.name
         bad = []
         for x in walk(fn.body):
@@ -852,11 +853,16 @@ def r_at_override(ctx, rep):
     n = 0
     for fn in F.fns:
         short = fn.name.rsplit("::", 1)[-1]
-        if short not in ("worksheet_range_at", "worksheet_range_at_ref", "worksheet_formula_at") or fn.impl_trait not in ("Reader", "ReaderRef") or not fn.impl_self:
+        if short not in ("worksheet_range_at", "worksheet_range_at_ref", "worksheet_formula_at", "sheet_names") or fn.impl_trait not in ("Reader", "ReaderRef") or not fn.impl_self:
             continue
         n += 1
         key = "%s|R-AT|override" % fn.name
-        bad = [c for c in walk_k(fn.body, "MethodCall") if c.get("name") in ("nth", "keys", "values", "iter", "into_iter", "first_key_value", "last_key_value") and ("BTreeMap" in (peel(c["recv"]).get("ty") or "") or "HashMap" in (peel(c["recv"]).get("ty") or ""))]
+        bad = [c for c in walk_k(fn.body, "MethodCall") if c.get("name") in ("nth", "keys", "values", "iter", "into_iter", "first_key_value", "last_key_value", "into_keys") and ("BTreeMap" in (peel(c["recv"]).get("ty") or "") or "HashMap" in (peel(c["recv"]).get("ty") or ""))]
+        # the n-th sheet is the n-th entry of the list as it stands: a `filter` / `skip_while` in front of `nth` (only the
+        # worksheets, only the visible ones) makes the index disagree with sheet_names() and sheets_metadata()
+        bad += [c for c in walk_k(fn.body, "MethodCall") if c.get("name") in ("filter", "filter_map", "skip_while", "take_while", "rev", "step_by", "skip") and "Iterator" in (callee(c) or "iter::traits::iterator::Iterator") and short != "sheet_names"]
+        if short == "sheet_names":
+            bad += [c for c in walk_k(fn.body, "MethodCall") if c.get("name") in ("sort", "sort_unstable", "sort_by", "sort_by_key", "dedup", "reverse", "rev")]
         names = [c for c in walk_k(fn.body, "MethodCall", "Call") if (callee(c) or "").endswith("sheet_names")] + [f for f in walk_k(fn.body, "Field") if f.get("name") == "sheets" and "Metadata" in (peel(f["e"]).get("ty") or "")]
         if bad or not names:
             rep.violation("R-AT", key, loc(bad[0] if bad else fn.raw), "%s overrides the trait's by-index access and does not go through the sheet-name list (it iterates a map of sheets): the n-th sheet of the workbook and the n-th key of the map differ whenever the names are not sorted" % fn.name)
@@ -922,6 +928,12 @@ def r_tab_visit(ctx, rep):
             rep.holds("R-TAB-VISIT", key, loc(fn.raw), "%s -> Data::%s" % (short, sorted(vs)[0]))
         else:
             rep.violation("R-TAB-VISIT", key, loc(fn.raw), "the serde visitor of Data builds %s in %s (expected only %s): a `Data` field of a record would not receive the cell unchanged" % (sorted(vs), short, sorted(_VISIT[short])))
+    # every callback the crate's own deserializer uses must be there: DataDeserializer::deserialize_any hands an empty cell
+    # to visit_unit, deserialize_option to visit_none; serde's default for a missing one is an "invalid type" error
+    have = {fn.name.rsplit("::", 1)[-1] for fn in F.fns_in("src/datatype.rs") if "DataVisitor" in (fn.impl_self or fn.name) and "DataRef" not in (fn.impl_self or "")}
+    for need in sorted(_VISIT):
+        if need not in have:
+            rep.violation("R-TAB-VISIT", "datatype::DataVisitor::%s|R-TAB-VISIT|present" % need, "-", "the serde visitor of Data has no `%s`: the cell kind the deserializer reports through it (an empty cell for visit_unit / visit_none) makes the whole record fail with serde's default 'invalid type' error" % need)
     if n < 6:
         rep.anchor_missing("R-TAB-VISIT", "visit_* methods of the Data visitor in src/datatype.rs (found %d)" % n)
 
@@ -1777,3 +1789,308 @@ def r_mergecache(ctx, rep):
         rep.violation("R-MERGECACHE", key, loc(early[0]), "worksheet_merge_cells reads a lazily loaded cache before it has looked the sheet name up: an unknown name gives None on a fresh reader and Some(Ok([])) once load_merged_regions() has run")
     else:
         rep.holds("R-MERGECACHE", key, loc(fn.raw), "the sheet name is looked up first")
+
+
+def r_chunks0(ctx, rep):
+    """C06 / C17: `slice.chunks(0)` panics.  In the `Range` helpers the readers go through (`Range::range`, which cuts
+    tables and header-row windows out of a sheet, and `Range::rows`), a chunk size taken from `X.width()` is only used
+    where X cannot be empty: X was just built by `Range::new` (at least one cell), or an emptiness test of X (or
+    `width == 0`) leaves the function / selects the other branch first.  An empty range has width 0."""
+    F = ctx.facts("default")
+    from .kit import let_init, reach_conds
+    n = 0
+    for name in ("Range::range", "Range::rows"):
+        fn = next((f for f in F.user_fns() if f.file == "src/lib.rs" and f.name.endswith(name)), None)
+        if fn is None:
+            rep.anchor_missing("R-CHUNKS0", "%s in src/lib.rs" % name)
+            continue
+        for c, anc in walk_anc(fn.body):
+            if c.get("k") != "MethodCall" or c.get("name") not in ("chunks", "chunks_mut", "chunks_exact", "chunks_exact_mut", "rchunks") or not c.get("args"):
+                continue
+            n += 1
+            key = "%s|R-CHUNKS0|#%d" % (fn.name, n)
+            w = c["args"][0]
+            li = let_init(fn.body, w)
+            src = unwrap(li["init"]) if li is not None else unwrap(w)
+            owner = None
+            if isinstance(src, dict) and src.get("k") == "MethodCall" and src.get("name") == "width":
+                owner = peel(src["recv"])
+            if owner is None:
+                rep.violation("R-CHUNKS0", key, loc(c), "%s: the chunk size of `%s` is not the width of a range (cannot tell that it is non-zero)" % (fn.name, c["name"]))
+                continue
+            oname = path_local(owner)[0] if isinstance(owner, dict) and owner.get("k") == "Path" and path_local(owner) else None
+            # (a) built here by Range::new
+            oli = let_init(fn.body, owner) if oname and oname != "self" else None
+            if oli is not None and any((callee(x) or "").endswith("Range::new") for x in walk_k(oli["init"], "Call")):
+                rep.holds("R-CHUNKS0", key, loc(c), "`%s` was built by Range::new a few lines up: at least one cell wide" % oname)
+                continue
+
+            # (b) an emptiness test of the owner decides before the call is reached
+            def is_empty_test(e):
+                for m in walk_k(e, "MethodCall"):
+                    if m.get("name") == "is_empty":
+                        r = peel(m["recv"])
+                        while isinstance(r, dict) and r.get("k") == "Field":
+                            r = peel(r["e"])
+                        if isinstance(r, dict) and r.get("k") == "Path" and path_local(r) and path_local(r)[0] == oname:
+                            return True
+                for b in walk_k(e, "Binary"):
+                    if b.get("op") in ("==", "!=", ">", "<", ">=", "<=") and 0 in (lit_value(b["l"]), lit_value(b["r"])):
+                        for side in (b["l"], b["r"]):
+                            pl = path_local(peel(side)) if isinstance(peel(side), dict) and peel(side).get("k") == "Path" else None
+                            wl = path_local(peel(w)) if isinstance(peel(w), dict) and peel(w).get("k") == "Path" else None
+                            if pl and wl and pl[1] == wl[1]:
+                                return True
+                return False
+            guarded = any(is_empty_test(cond) for cond in reach_conds(c, anc, fn.body)) or any(
+                a_.get("k") == "If" and is_empty_test(a_["cond"]) for a_ in anc) or any(      # either branch of `if X.is_empty() {..} else {..}`
+                a_.get("k") == "MethodCall" and a_.get("name") in ("then", "then_some") and is_empty_test(a_["recv"]) for a_ in anc)   # `(!X.is_empty()).then(|| ..)`
+            if not guarded:
+                # an earlier `if <empty test> { return .. }` among the statements in front of the call
+                from .kit import always_leaves
+                order = {id(x): i for i, x in enumerate(walk(fn.body))}
+                for i_ in walk_k(fn.body, "If"):
+                    if order.get(id(i_), 1 << 30) < order.get(id(c), 0) and is_empty_test(i_["cond"]) and always_leaves(i_["then"], set()) and not any(x is c for x in walk(i_)):
+                        guarded = True
+            if guarded:
+                rep.holds("R-CHUNKS0", key, loc(c), "an emptiness test of `%s` comes first" % oname)
+            else:
+                rep.violation("R-CHUNKS0", key, loc(c), "%s calls `%s(%s.width())` without having excluded an empty `%s`: an empty range has width 0 and `chunks(0)` panics (a table without header row starting in A1 on a sheet that holds no value reaches this through Xlsx::table_by_name)" % (fn.name, c["name"], oname, oname))
+    rep.floor("R-CHUNKS0", 3, "chunk iterations of Range::range / Range::rows")
+
+
+def r_hdr_space(ctx, rep):
+    """C09: RowDeserializer looks a field's name up as `headers[column index]`: the header list kept by
+    RangeDeserializer::new is the *whole* header row (one name per column of the sheet), whichever columns were
+    selected -- the value paired with the index list is the deserialised row itself, not a list derived from the selection."""
+    F = ctx.facts("default")
+    fn = F.fn("de::RangeDeserializer::new")
+    key = "de::RangeDeserializer::new|R-HDR|index-space"
+    if fn is None:
+        rep.anchor_missing("R-HDR", "de::RangeDeserializer::new")
+        return
+    from .kit import let_init
+    n = 0
+    bad = None
+    for t in walk_k(fn.body, "Tup"):
+        es = t.get("es", [])
+        if len(es) != 2:
+            continue
+        second = unwrap(es[1])
+        if not (isinstance(second, dict) and second.get("k") == "Call" and (callee(second) or "").endswith("Option::Some") and second.get("args")):
+            continue
+        if "String" not in (second.get("ty") or ""):
+            continue
+        n += 1
+        v = second["args"][0]
+        # the index list it is paired with: the header list must not be computed *from* it (the selection)
+        first = unwrap(es[0])
+        idx_lids = {path_local(p_)[1] for p_ in walk_k(first, "Path") if path_local(p_)}
+        chain = _follow(fn.body, v, inl_params(fn.body))
+        uses_selection = any(path_local(p_) and path_local(p_)[1] in idx_lids for e_ in chain[1:] for p_ in walk_k(e_, "Path"))
+        # `(0..row.len()).collect()` is the identity selection of Headers::All: all columns, in order
+        identity = any(m.get("name") == "collect" and unwrap(m["recv"]).get("k") == "Struct" and "ops::range::Range" in ((unwrap(m["recv"]).get("res") or {}).get("def") or (unwrap(m["recv"]).get("res") or {}).get("ctor_of") or unwrap(m["recv"]).get("ty") or "")
+                       for e_ in ([let_init(fn.body, first)["init"]] if let_init(fn.body, first) is not None else [first]) for m in walk_k(e_, "MethodCall"))
+        if uses_selection and not identity:
+            bad = second
+    if n < 2:
+        rep.anchor_missing("R-HDR", "the (column indexes, Some(header names)) pairs built by RangeDeserializer::new (found %d)" % n)
+    elif bad is not None:
+        rep.violation("R-HDR", key, loc(bad), "RangeDeserializer::new keeps a header list that is derived from the selected columns instead of the whole header row: field names are looked up as headers[column index], so a reordered selection binds the wrong names and a subset indexes past the end")
+    else:
+        rep.holds("R-HDR", key, loc(fn.raw), "the header list kept next to the column indexes is the deserialised header row itself (%d sites)" % n)
+
+
+def r_de_option(ctx, rep):
+    """C09 / C19: an optional field is None for an empty cell and for nothing else: in DataDeserializer::deserialize_option
+    `visit_none` is reached from the unguarded `Data::Empty` arm only."""
+    F = ctx.facts("default")
+    fn = next((f for f in F.fns if f.name.endswith("::deserialize_option") and "DataDeserializer" in (f.impl_self or f.name)), None)
+    key = "de::DataDeserializer::deserialize_option|R-TAB-DE|none-only-for-empty"
+    if fn is None:
+        rep.anchor_missing("R-TAB-DE", "DataDeserializer::deserialize_option")
+        return
+    bad = None
+    seen = 0
+    from .kit import matches_as_match
+    syn = matches_as_match(fn.body)
+    hidden = {id(inner) for _, inner in syn}
+    for m in [x for x in walk_k(fn.body, "Match") if id(x) not in hidden] + [x for x, _ in syn]:
+        for a in m.get("arms", []):
+            if not any(c.get("name") == "visit_none" for c in walk_k(a["body"], "MethodCall")):
+                continue
+            seen += 1
+            v = pat_variant(a["pat"]) or ""
+            if not v.endswith("Data::Empty") or a.get("guard") is not None:
+                bad = a
+    others = [c for c in walk_k(fn.body, "MethodCall") if c.get("name") == "visit_none"]
+    if seen == 0 and not others:
+        rep.anchor_missing("R-TAB-DE", "the visit_none call of deserialize_option")
+    elif bad is not None or len(others) != seen:
+        rep.violation("R-TAB-DE", key, loc(bad or others[0]), "deserialize_option answers None for something else than an empty cell: a value (a text of blanks, an error) read into an Option field silently disappears")
+    else:
+        rep.holds("R-TAB-DE", key, loc(fn.raw), "visit_none only from the unguarded Data::Empty arm")
+
+
+def r_cfbseq(ctx, rep):
+    """C13: `cfb::Sectors` reads the file strictly front to back and keeps what it has read: a sector it has not cached
+    yet is expected at the reader's current position.  Between `Cfb::new` and the last `get_stream` nothing else may
+    move the reader: the functions that drive a Cfb (Xls::new_with_options, VbaProject::from_cfb and the sniffs) call
+    no `seek` / `rewind` / `seek_relative` after the Cfb was built."""
+    F = ctx.facts("default")
+    n = 0
+    for fn in F.user_fns():
+        if fn.file not in ("src/xls.rs", "src/vba.rs", "src/cfb.rs"):
+            continue
+        news = [c for c in walk_k(fn.body, "Call") if (callee(c) or "").endswith("cfb::Cfb::new")]
+        uses = [c for c in walk_k(fn.body, "MethodCall", "Call") if (callee(c) or "").endswith("Cfb::get_stream") or (callee(c) or "").endswith("VbaProject::from_cfb") or (callee(c) or "").endswith("parse_workbook")]
+        if not news or not uses:
+            continue
+        n += 1
+        key = "%s|R-CFBSEQ" % fn.name
+        order = {id(x): i for i, x in enumerate(walk(fn.body))}
+        first_new = min(order[id(c)] for c in news)
+        last_use = max(order[id(c)] for c in uses)
+        moved = [c for c in walk_k(fn.body, "MethodCall") if c.get("name") in ("seek", "rewind", "seek_relative", "set_position") and first_new < order[id(c)] < last_use]
+        if moved:
+            rep.violation("R-CFBSEQ", key, loc(moved[0]), "%s repositions the reader (`%s`) between Cfb::new and a later stream read: the sector cache of the compound file is filled sequentially, so sectors not yet cached are then read from the wrong offset and the stream comes back as bytes from the start of the file" % (fn.name, moved[0]["name"]))
+        else:
+            rep.holds("R-CFBSEQ", key, loc(news[0]), "the reader is not repositioned while the Cfb is in use")
+    rep.floor("R-CFBSEQ", 1, "functions that build a Cfb and read streams from it")
+
+
+def r_sstasis(ctx, rep):
+    """C19 / C12: the shared strings of an xls workbook are what parse_sst decoded: in Xls::parse_workbook the `strings`
+    table is assigned from parse_sst and never modified afterwards (no retain / trim / iter_mut / `for s in &mut`)."""
+    F = ctx.facts("default")
+    fn = F.fn("xls::Xls::parse_workbook")
+    key = "xls::Xls::parse_workbook|R-SSTASIS"
+    if fn is None:
+        rep.anchor_missing("R-SSTASIS", "xls::Xls::parse_workbook")
+        return
+    lid = None
+    for a in walk_k(fn.body, "Assign"):
+        if any((callee(c) or "").endswith("xls::parse_sst") for c in walk_k(a["r"], "Call")):
+            pl = path_local(peel(a["l"])) if isinstance(peel(a["l"]), dict) and peel(a["l"]).get("k") == "Path" else None
+            lid = pl[1] if pl else None
+    for l in walk_k(fn.body, "Let"):
+        if l.get("init") is not None and any((callee(c) or "").endswith("xls::parse_sst") for c in walk_k(l["init"], "Call")):
+            b = pat_bindings(l["pat"])
+            lid = b[0][1] if b else lid
+    if lid is None:
+        rep.anchor_missing("R-SSTASIS", "the table assigned from parse_sst in parse_workbook")
+        return
+    muts = [w for w in _writes_of(lid, fn.body) if not (w.get("k") == "Assign" and any((callee(c) or "").endswith("xls::parse_sst") for c in walk_k(w["r"], "Call")))]
+    if muts:
+        rep.violation("R-SSTASIS", key, loc(muts[0]), "parse_workbook modifies the shared-string table after parse_sst decoded it: every LabelSst cell then shows an edited text (characters removed or trimmed) while the same text stored as a Label or formula string keeps them")
+    else:
+        rep.holds("R-SSTASIS", key, loc(fn.raw), "the shared-string table is used as decoded")
+
+
+def r_autoext(ctx, rep):
+    """C20 (and every format property through open_workbook_auto): a file with a known extension is opened by that
+    format's reader and the reader's own error -- Password included -- is what the caller gets: the extension arms of
+    auto::open_workbook_auto carry no guard and map the error into the wrapper."""
+    F = ctx.facts("default")
+    fn = F.fn("auto::open_workbook_auto")
+    key = "auto::open_workbook_auto|R-AUTOEXT"
+    if fn is None:
+        rep.anchor_missing("R-AUTOEXT", "auto::open_workbook_auto")
+        return
+    arms = []
+    for m in walk_k(fn.body, "Match"):
+        for a in m.get("arms", []):
+            lits = [v for v in pat_literals(a["pat"])[0] if isinstance(v, str)]
+            if any(v in ("xls", "xlsx", "xlsb", "ods") for v in lits):
+                arms.append((a, lits))
+    if len(arms) < 4:
+        rep.anchor_missing("R-AUTOEXT", "the extension arms of auto::open_workbook_auto (found %d)" % len(arms))
+        return
+    bad = [a for a, _ in arms if a.get("guard") is not None and not a.get("guard_from_body")]
+    noerr = [a for a, _ in arms if not any(c.get("name") == "map_err" for c in walk_k(a["body"], "MethodCall")) and not any(x.get("src") == "TryDesugar" for x in walk_k(a["body"], "Match"))]
+    if bad:
+        rep.violation("R-AUTOEXT", key, loc(bad[0]), "an extension arm of open_workbook_auto is guarded: when the guard fails the file falls into the sniffing arm, which discards every reader's error -- an encrypted .xlsx (a compound file, not a zip) then reports 'cannot detect file format' instead of Password")
+    elif noerr:
+        rep.violation("R-AUTOEXT", key, loc(noerr[0]), "an extension arm of open_workbook_auto does not propagate the reader's error")
+    else:
+        rep.holds("R-AUTOEXT", key, loc(fn.raw), "%d extension arms, unguarded, each propagating its reader's error" % len(arms))
+
+
+def r_range_disjoint(ctx, rep):
+    """C06 / C17: Range::range copies the overlap of two rectangles; it returns early unless they overlap in rows *and* in
+    columns -- the column arithmetic below (`end_col + 1 - other_start_col`) underflows for a rectangle beside the data."""
+    F = ctx.facts("default")
+    fn = next((f for f in F.user_fns() if f.file == "src/lib.rs" and f.name.endswith("Range::range")), None)
+    key = "Range::range|R-RANGE-DISJOINT"
+    if fn is None:
+        rep.anchor_missing("R-RANGE-DISJOINT", "Range::range")
+        return
+    from .kit import always_leaves
+    ok = False
+    for i in walk_k(fn.body, "If"):
+        if not always_leaves(i["then"], set()):
+            continue
+        gts = [b for b in walk_k(i["cond"], "Binary") if b.get("op") in (">", "<")]
+        names = set()
+        for b in gts:
+            for side in (b["l"], b["r"]):
+                pl = path_local(peel(side)) if isinstance(peel(side), dict) and peel(side).get("k") == "Path" else None
+                if pl:
+                    names.add(pl[0])
+        rows = any("row" in x for x in names)
+        cols = any("col" in x for x in names)
+        ors = [b for b in walk_k(i["cond"], "Binary") if b.get("op") == "||"]
+        if rows and cols and ors and len(gts) >= 2:
+            ok = True
+    if ok:
+        rep.holds("R-RANGE-DISJOINT", key, loc(fn.raw), "early return when the rectangles share no row or no column")
+    else:
+        rep.violation("R-RANGE-DISJOINT", key, loc(fn.raw), "Range::range does not return early when the requested rectangle shares no column (or no row) with the stored cells: the width of the overlap underflows (a panic with overflow checks, a slice out of order without) for a table that lies beside the sheet's used range")
+
+
+def r_latefield(ctx, rep):
+    """C16 / C14: a loading step that fills a field of the reader by one final assignment (`self.metadata.names =
+    defined_names` at the end of read_workbook) works on its local accumulator until then: the field still holds the
+    constructor's empty default and is not read before that assignment."""
+    F = ctx.facts("default")
+    n = 0
+    for fn in F.user_fns():
+        short = fn.name.rsplit("::", 1)[-1]
+        if fn.file not in ("src/xlsb/mod.rs", "src/xlsx/mod.rs", "src/xls.rs", "src/ods.rs") or short not in ("read_workbook", "parse_workbook", "read_styles", "read_shared_strings", "read_relationships"):
+            continue
+        order = {id(x): i for i, x in enumerate(walk(fn.body))}
+        firsts = {}
+        for a in walk_k(fn.body, "Assign"):
+            fc = field_chain(a["l"])
+            if fc and fc[0] == "self" and fc[1]:
+                k = tuple(fc[1])
+                firsts[k] = min(firsts.get(k, 1 << 30), order[id(a)])
+        if not firsts:
+            continue
+        n += 1
+        key = "%s|R-LATEFIELD" % fn.name
+        bad = None
+        assigned_nodes = {id(peel(a["l"])) for a in walk_k(fn.body, "Assign")}
+        # capacity management of the field itself (`self.extern_sheets.reserve(n)`) is not a look-up
+        for m_ in walk_k(fn.body, "MethodCall"):
+            if m_.get("name") in ("reserve", "reserve_exact", "capacity", "clear", "shrink_to_fit"):
+                for x_ in walk(m_["recv"]):
+                    if isinstance(x_, dict) and x_.get("k") == "Field":
+                        assigned_nodes.add(id(x_))
+        for f in walk_k(fn.body, "Field"):
+            if id(f) in assigned_nodes:
+                continue
+            fc = field_chain(f)
+            if not fc or fc[0] != "self" or not fc[1]:
+                continue
+            k = tuple(fc[1])
+            if k in firsts and order[id(f)] < firsts[k]:
+                # only collections / tables matter (a flag such as is_1904 is read by nobody before it is set anyway)
+                ty = (f.get("ty") or "")
+                if "Vec<" in ty or "Map<" in ty:
+                    bad = (f, ".".join(k))
+        if bad:
+            rep.violation("R-LATEFIELD", key, loc(bad[0]), "%s reads `self.%s` before the assignment that fills it: at that point the field is still the empty default of the constructor, so look-ups in it (names a later name refers to) find nothing" % (fn.name, bad[1]))
+        else:
+            rep.holds("R-LATEFIELD", key, loc(fn.raw), "no collection field is read before the assignment that fills it")
+    rep.floor("R-LATEFIELD", 2, "loading steps that assign reader fields")
